@@ -100,6 +100,10 @@ void SimAlloc::reset_run()
 	parse_reqs = 0;
 	fired_in_parse = 0;
 	last_parse_fault = ParseRecord();
+	in_dump = 0;
+	dump_reqs = 0;
+	dump_text_valid = false;
+	last_dump_fault = DumpRecord();
 }
 
 extern "C" void *sim_malloc(size_t n)
@@ -115,6 +119,8 @@ extern "C" void *sim_malloc(size_t n)
 	g_alloc.total_reqs++;
 	if (g_alloc.in_parse)
 		g_alloc.parse_reqs++;
+	if (g_alloc.in_dump)
+		g_alloc.dump_reqs++;
 	if (g_alloc.armed) {
 		g_alloc.win_reqs++;
 		if (g_alloc.fail_at > 0 &&
@@ -122,6 +128,13 @@ extern "C" void *sim_malloc(size_t n)
 		     (g_alloc.fail_from && (int64_t)g_alloc.win_reqs > g_alloc.fail_at))) {
 			g_alloc.fired++;
 			g_alloc.total_fired++;
+			if (g_alloc.in_dump && !g_alloc.last_dump_fault.valid && g_alloc.dump_text_valid) {
+				DumpRecord &d = g_alloc.last_dump_fault;
+				d.valid = true;
+				d.text = g_alloc.dump_text;
+				d.flags = g_alloc.dump_flags;
+				d.k_rel = g_alloc.dump_reqs;
+			}
 			if (g_alloc.in_parse) {
 				g_alloc.fired_in_parse++;
 				if (!g_alloc.last_parse_fault.valid) {
@@ -270,6 +283,35 @@ extern "C" json_t *json_load_file(const char *path, size_t flags, json_error_t *
 			g_alloc.last_parse_fault.bytes = d;
 		}
 	}
+	return r;
+}
+
+// json_dumps: same idea as the parse wrappers. While a fault is armed the fault-free dump of the
+// value is taken first (with injection suspended) so that the dump can be repeated against
+// jansson alone.
+typedef char *(*dumps_t)(const json_t *, size_t);
+
+extern "C" char *json_dumps(const json_t *json, size_t flags)
+{
+	static dumps_t real = (dumps_t)real_sym("json_dumps");
+	if (g_alloc.thread_mode || g_alloc.in_dump || !g_alloc.armed || g_alloc.fail_at <= 0 || !json)
+		return real(json, flags);
+	// suspend injection and accounting while copying
+	bool armed = g_alloc.armed;
+	uint64_t win = g_alloc.win_reqs, tot = g_alloc.total_reqs;
+	g_alloc.armed = false;
+	char *clean = real(json, flags);
+	g_alloc.dump_text_valid = clean != NULL;
+	g_alloc.dump_text = clean ? clean : "";
+	sim_free(clean);
+	g_alloc.armed = armed;
+	g_alloc.win_reqs = win;
+	g_alloc.total_reqs = tot;
+	g_alloc.dump_flags = flags;
+	g_alloc.dump_reqs = 0;
+	g_alloc.in_dump++;
+	char *r = real(json, flags);
+	g_alloc.in_dump--;
 	return r;
 }
 
